@@ -4,6 +4,8 @@ From FV.C11 Require Import Model Entry Proofs.
 From FV.C11.gen Require Import Kernels.
 Import ListNotations.
 Open Scope R_scope.
+(* no sentence of this file may hold the shared Coq build lock for long *)
+Set Default Timeout 240.
 (* -------------------------------------------------------- volume kernels *)
   Lemma tet_core_affine M t q0 q1 q2 q3 :
     k_element_volumes_tet_like_core ROps (aff ROps M t q0) (aff ROps M t q1) (aff ROps M t q2) (aff ROps M t q3)
